@@ -186,7 +186,7 @@ func TestC10(t *testing.T) {
 	busyIsViolation = true
 	rapid.Check(t, func(t *rapid.T) {
 		cfg := hist.DrawCfg(t, 50, []int{1, 3, 20})
-		g := hist.NewGen(t, c10Weights, hist.Universe[:13], 3, cfg.RecordSize)
+		g := hist.NewGen(t, c10Weights, hist.Universe[:13], 3, cfg.RecordSize).WithSuffixNames(t, cfg)
 		g.Avoid = c10Avoid()
 		g.MaxSize = 3000
 		n := rapid.IntRange(3, *maxSteps).Draw(t, "nsteps")
